@@ -259,3 +259,56 @@ func Harness_C19_set_tags_reserved_namespace() {
 	verifAssert(n == 1, "set-tags-answered-once")
 	verifReach("end")
 }
+
+// Search by tags of a masked namespace only with tags the user itself carries - wherever in the query (required
+// terms, OR groups, or both) the masked tag stands; ordinary users search active accounts and topics only.
+// {get sub} on the user's 'fnd' topic through the real replyGetSub; the store's FindSubs is a recorder.
+func Harness_C19_fnd_masked_namespace() {
+	verifNewStore()
+	verifInitGlobals()
+	verifInstallStoreObj(&verifAuthOutcome{})
+	globals.maskedTagNS = map[string]bool{"em": true}
+	uid := types.Uid(5)
+	root := verifNondetBool("rootSession")
+	lvl := auth.LevelAuth
+	if root {
+		lvl = auth.LevelRoot
+	}
+	sess := verifNewSession("sid-f", uid, lvl, 16)
+	own, foreign := "em:mine", "em:other"
+	// query = [plain AND] term [,plain] : the tag under test stands alone, after a required term, inside an OR group
+	tag := []string{own, foreign, "plain2"}[verifChoose("tag", 3)]
+	q := tag
+	if verifNondetBool("inOrGroup") {
+		q = q + ",flowers"
+	}
+	if verifNondetBool("afterRequiredTerm") {
+		q = "travel " + q
+	}
+	t := &Topic{name: uid.FndName(), xoriginal: "fnd", cat: types.TopicCatFnd, tags: []string{own, "plain"},
+		perUser:  map[types.Uid]perUserData{uid: {modeWant: types.ModeCSelf, modeGiven: types.ModeCSelf}},
+		sessions: map[*Session]perSessionData{sess: {uid: uid}}, public: map[string]any{sess.sid: q}}
+	verifFindSubsCalls = nil
+	msg := &ClientComMessage{Id: "g1", AsUser: uid.UserId(), AuthLvl: int(lvl), Original: "fnd", RcptTo: t.name,
+		Timestamp: types.TimeNow(), sess: sess, init: true, MetaWhat: constMsgMetaSub,
+		Get: &MsgClientGet{Id: "g1", Topic: "fnd", MsgGetQuery: MsgGetQuery{What: "sub"}}}
+	t.handleMeta(msg)
+	denied := false
+	n := 0
+	for _, r := range verifDrainSend(sess) {
+		if r != nil && r.Ctrl != nil && r.Ctrl.Id == "g1" {
+			n++
+			denied = denied || r.Ctrl.Code == 403
+		}
+	}
+	verifAssert(n >= 1, "search-answered")
+	if tag == foreign {
+		verifAssert(denied && len(verifFindSubsCalls) == 0, "masked-tag-of-somebody-else-never-reaches-the-search")
+	} else {
+		verifAssert(!denied && len(verifFindSubsCalls) == 1, "permitted-search-is-run")
+		if len(verifFindSubsCalls) == 1 {
+			verifAssert(verifFindSubsCalls[0].activeOnly == !root, "ordinary-users-search-active-only")
+		}
+	}
+	verifReach("end")
+}
